@@ -69,7 +69,8 @@ def _script(r, n, fatal_ok=True):
     if k == "part":
       out.append(["part", r.randint(1, 255)])
     elif k == "fatal":
-      out.append(["fatal", r.pick([104, 32])])
+      # ECONNRESET, EPIPE, ETIMEDOUT, EHOSTUNREACH, ENETDOWN
+      out.append(["fatal", r.pick([104, 32, 104, 32, 110, 113, 100])])
       break
     else:
       out.append([k])
@@ -550,6 +551,10 @@ def _drive_ctl(sim, plan, known, hit):
                                                          len(downs_c)))
       if not queued[i].startswith(acc):
         raise Violation("ctl/stream-corrupted", "connection %d" % i)
+      if p.srv.sends_after_fatal:
+        raise Violation("ctl/write-after-fatal", "connection %d: %d send() "
+                        "call(s) on the socket after it had reported a "
+                        "fatal error" % (i, p.srv.sends_after_fatal))
     else:
       if downs or downs_c:
         raise Violation("ctl/spurious-down", "connection %d was reported "
